@@ -128,6 +128,67 @@ def _unit(args):
   return st
 
 
+# ---- numpy columns whose element type differs between input batches ------------
+
+def _variant_value(variant, j, v):
+  """Value of row v in input batch j for a mixed-dtype column."""
+  if variant == 'int-then-float':
+    return v if j % 2 == 0 else v + 0.5
+  if variant == 'float-then-int':
+    return v + 0.5 if j % 2 == 0 else v
+  if variant == 'str-width':
+    return 'r' * (1 + j % 3) + str(v)
+  if variant == 'bool-then-int':
+    return (v % 2 == 0) if j == 0 else v
+  raise ValueError(variant)
+
+
+def _same_value(variant, a, b):
+  if variant == 'str-width':
+    return str(a) == str(b)
+  return float(a) == float(b)
+
+
+def check_mixed_dtype(st, sizes, target, variant):
+  from ml_metrics._src.utils import iter_utils
+  case = ('rebatched_args:mixed-dtype', sizes, target, variant)
+  st.case(case)
+  batches, flat, i = [], [], 0
+  for j, sz in enumerate(sizes):
+    vals = [_variant_value(variant, j, v) for v in range(i, i + sz)]
+    batches.append((np.asarray(vals), np.arange(i, i + sz)))
+    flat.extend(vals)
+    i += sz
+  try:
+    got = list(iter_utils.rebatched_args(iter(batches), target, num_columns=2))
+  except Exception as e:  # pylint: disable=broad-except
+    st.violation(f'C19:rebatched_args:mixed-dtype:raise:{type(e).__name__}:{variant}',
+                 {'case': case, 'error': repr(e)}, replay={'mixed': case})
+    return
+  rows = [(a, int(b)) for g in got for a, b in zip(g[0].tolist(), g[1].tolist())]
+  st.outcome((variant, len(got)))
+  ok = len(rows) == len(flat) and all(
+      k == idx and _same_value(variant, a, flat[idx])
+      for idx, (a, k) in enumerate(rows))
+  if not ok:
+    st.violation(f'C19:rebatched_args:mixed-dtype:rows-changed:{variant}',
+                 {'case': case, 'got': rows, 'expected': flat},
+                 replay={'mixed': case})
+
+
+def _mixed_unit(args):
+  size_seqs, targets = args
+  st = Stats()
+  for sizes in size_seqs:
+    for target in targets:
+      for variant in ('int-then-float', 'float-then-int', 'str-width',
+                      'bool-then-int'):
+        check_mixed_dtype(st, tuple(sizes), target, variant)
+  if size_seqs:
+    st.sample({'driver': 'rebatched_args mixed dtype', 'sizes': size_seqs[0]})
+  return st
+
+
 # ---- the same law through the pipeline operators ---------------------------
 
 def _pipeline_unit(args):
@@ -200,6 +261,8 @@ def run(ctx):
       f'{min_size}..{max_size} x target 1..{max(targets)} x 1-3 columns x '
       f'container kinds (uniform and mixed{"" if quick else ", all combinations"}) '
       'x pad in {None,0} x num_columns given/inferred through rebatched_args; '
+      'numpy columns whose element type changes between input batches (int/float, '
+      'bool/int, string widths) over every sequence of 2-3 (4) batches; '
       'plus apply/select(batch_size, fn_batch_size) pipelines over every '
       'sequence of <= 4 list batches; non-trivial = non-empty stream; '
       'distinct = distinct (driver, sizes, target, columns, kinds, pad, infer)')
@@ -210,6 +273,10 @@ def run(ctx):
   units = [(u, tuple(targets), ncols, ctx.tier)
            for u in enums.chunks(ctx.shuffled(seqs), 64)]
   ctx.pmap(_unit, units)
+  mseqs = [q for q in enums.sequences(range(1, 4 if quick else 5),
+                                      3 if quick else 4) if len(q) >= 2]
+  ctx.pmap(_mixed_unit, [(u, tuple(range(1, 5)))
+                         for u in enums.chunks(ctx.shuffled(mseqs), 32)])
   pseqs = list(enums.sequences(range(1, 4 if quick else 5), 3 if quick else 4))
   ctx.pmap(_pipeline_unit, [(u, tuple(range(1, 5)))
                             for u in enums.chunks(ctx.shuffled(pseqs), 32)])
@@ -217,6 +284,10 @@ def run(ctx):
 
 
 def replay(ctx, data):
+  if 'mixed' in data['replay']:
+    _, sizes, target, variant = data['replay']['mixed']
+    check_mixed_dtype(ctx, tuple(sizes), target, variant)
+    return
   case = data['replay']['case']
   if case[0] == 'rebatched_args':
     _, sizes, target, ncol, kinds, pad, infer = case
